@@ -56,6 +56,7 @@ def install(eng):
         if '.' not in name:
             bn.setdefault(name, PyObj('excclass', name))
     bn['struct'] = PyObj('module', 'struct')
+    bn['sys'] = PyObj('module', 'sys')
     bn['zlib'] = PyObj('module', 'zlib')
     bn['time'] = PyObj('module', 'time')
     bn['bytes'] = PyObj('type', 'bytes')
@@ -641,6 +642,14 @@ def b_reversed(eng, args, kwargs, fr, node):
     return r
 
 
+def b_hasattr(eng, args, kwargs, fr, node):
+    v = args[0]
+    name = fmt_of(eng, args[1], node.args[1], fr)
+    if isinstance(v, V) and v.ty[0] == 'struct':
+        return vbool(any(f == name for f, _, _ in T.STRUCTS[v.ty[1]]))
+    raise_unsupported('hasattr on %s' % (getattr(v, 'ty', v),))
+
+
 def b_implies(eng, args, kwargs, fr, node):
     return vbool(z3.Implies(eng.truth(args[0]), eng.truth(args[1])))
 
@@ -683,7 +692,7 @@ BUILTIN_FUNCS = {
     'int': None,
     'unpack_tuple': b_unpack_tuple, 'calcsize': b_calcsize,
     'len': b_len, 'isinstance': b_isinstance, 'min': b_min, 'max': b_max, 'abs': b_abs, 'range': b_range,
-    'enumerate': b_enumerate, 'reversed': b_reversed, 'zip': b_zip, 'implies': b_implies, 'ite': b_ite, 'repr': b_repr,
+    'enumerate': b_enumerate, 'reversed': b_reversed, 'hasattr': b_hasattr, 'zip': b_zip, 'implies': b_implies, 'ite': b_ite, 'repr': b_repr,
 }
 
 
@@ -698,6 +707,8 @@ def pyobj_attr(eng, base, attr):
             return PyObj('builtin', MODULE_FUNCS[name])
         if name == 'struct.error':
             return PyObj('excclass', 'struct.error')
+        if name == 'sys.maxsize':
+            return vint(2 ** 63 - 1)
         if name == 'struct.Struct':
             return PyObj('builtin', b_struct_Struct)
         raise_unsupported('module attribute %s' % name)
@@ -890,6 +901,12 @@ def call_method(eng, fobj, args, kwargs, fr, node):
         if attr == 'append':
             item = args[0]
             lst = base
+            if not eng.pure:
+                from .twisted_model import site_ordinal
+                cfr = getattr(eng, 'cur_frame', None)
+                if cfr is not None:
+                    cfr.ghost['appended'] = item
+                checkpoint(eng, 'call:append#%d' % site_ordinal(eng, node, 'append'))
             if lst.ty[1] == ANY:
                 lst = V(('list', item.ty), z3.Empty(T.sort_of(('list', item.ty))))
             item = T.coerce(item, lst.ty[1])
@@ -1022,6 +1039,14 @@ def construct(eng, ci, args, kwargs, fr, node):
                 vals[f] = eng.eval(dflt, None)
             else:
                 raise_unsupported('missing field %s constructing %s' % (f, name))
+        # None stored where the wire needs a value: Python accepts it (fails later in struct.pack); recorded as a
+        # type obligation at the construction site
+        for f, t, _ in fields:
+            v = vals[f]
+            if isinstance(v, V) and v.ty[0] == 'opt' and t[0] != 'opt' and t != ANY and T.coercible(v.ty[1], t):
+                if not eng.pure:
+                    eng.prove('type.field:%s.%s:not-None' % (name, f), z3.Not(T.is_none(v)), kind='type')
+                vals[f] = T.opt_val(v)
         try:
             return T.mk_struct(name, vals)
         except T.TypeMismatch as e:
@@ -1075,7 +1100,25 @@ def on_yield(eng, item, fr):
 
 
 def icb_yield(eng, node, fr):
-    raise_unsupported('yield in a non-generator unit')
+    """`v = yield d` in an @inlineCallbacks generator: suspension until d fires.  While suspended anything may run
+    (object invariant asserted, mutable heap havocked, invariant assumed); on resumption d has fired: with a value
+    (unknown) or with a failure, which is raised at the yield."""
+    from . import heap as H
+    from .twisted_model import is_ref
+    from .engine import PyRaise
+    v = eng.eval(node.value, fr) if node.value is not None else VNONE
+    if isinstance(v, V) and v.ty[0] == 'opt' and v.ty[1] == ('ref', 'Deferred'):
+        if eng.branch(T.is_none(v)):
+            return VNONE
+        v = T.opt_val(v)
+    if is_ref(v, 'Deferred'):
+        H.note_ref(eng, v)
+        H.external_call(eng, 'yield (suspension)')
+        eng.assume(H.heap_read(eng, v, 'called').t)
+        if eng.branch(H.heap_read(eng, v, 'failed').t):
+            raise PyRaise('Exception', msg='failure delivered at yield')
+        return eng.fresh(ANY, 'yielded_value')
+    return v
 
 
 def heap_read(eng, ref, field):
@@ -1139,12 +1182,15 @@ def apply_method_contract(eng, fi, c, args, kwargs, node):
     nm = fi.qualname.split('afkak.')[-1]
     eng.callcount[nm] = eng.callcount.get(nm, 0) + 1
     siteid = '%s#%d' % (nm, eng.callcount[nm])
+    checkpoint(eng, 'call:%s#%d' % (fi.node.name, eng.callcount[nm]))
     for i, r in enumerate(c.requires):
         eng.prove('pre@%s.%d' % (siteid, i + 1), eng.pure_bool(r, fr_c), kind='pre')
-    outcomes = [('ok', None)] + [(k_, eng.pure_bool(v_[4:] if v_.startswith('iff:') else v_, fr_c)) for k_, v_ in c.raises.items()]
+    # an @inlineCallbacks function never raises at the call: an exception in its body becomes a failed Deferred
+    craises = {} if fi.is_inline_callbacks else c.raises
+    outcomes = [('ok', None)] + [(k_, eng.pure_bool(v_[4:] if v_.startswith('iff:') else v_, fr_c)) for k_, v_ in craises.items()]
     conds = [z3.BoolVal(True)] + [o[1] for o in outcomes[1:]]
     idx = eng.choose(conds) if len(conds) > 1 else 0
-    old = H.havoc(eng, 'call of ' + nm)
+    old = H.havoc(eng, 'call of ' + nm, only=c.extra.get('modifies'))
     eng.st.ghost['old_heap_stack'] = eng.st.ghost.get('old_heap_stack', []) + [old]
     try:
         if idx > 0:
@@ -1159,3 +1205,30 @@ def apply_method_contract(eng, fi, c, args, kwargs, node):
         for ref in eng.st.ghost.get('inv_objects', {}).values():
             H.assume_invariant(eng, ref)
     return res
+
+
+def checkpoint(eng, key):
+    """clauses the unit's contract attaches to a program point (anchored structurally: call:<name>#<ordinal>)"""
+    c = eng.contract
+    cps = c.extra.get('checkpoints', {}) if c is not None else {}
+    if key not in cps:
+        return
+    from .engine import Frame
+    fr = getattr(eng, 'cur_frame', None)
+    for name, e in cps[key].items():
+        eng.prove('at.%s:%s' % (key, name.split('[')[0]), eng.pure_bool(e, unit_entry_names(eng, fr)), kind='post',
+                  props=c.clause_props(name), assume_after=False)
+
+
+def unit_entry_names(eng, fr):
+    """frame in which the unit's parameters denote their entry values but `self` fields are read from the current heap"""
+    from .engine import Frame
+    f = Frame(fr.func if fr is not None else None, fr)
+    top = fr
+    while top is not None:
+        for k_, v_ in top.ghost.items():
+            if k_.startswith('old_'):
+                f.vars.setdefault(k_[4:], v_)
+        top = top.parent
+    f.ghost = dict(fr.ghost) if fr is not None else {}
+    return f
